@@ -669,7 +669,15 @@ func randTup(r *Rng, typ string, format int, distinct bool) string {
 		k := r.Intn(5)
 		var bs [][]byte
 		for i := 0; i < k; i++ {
-			bs = append(bs, r.BytesFrom(1+r.Intn(12), []byte("NT LM0.12PCWORKdos")))
+			d := r.BytesFrom(1+r.Intn(12), []byte("NT LM0.12PCWORKdos"))
+			if r.Intn(4) == 0 { // dialect identifiers are OEM byte strings: high bytes and UTF-8 sequences must survive
+				if len(d) >= 2 && r.Intn(2) == 0 {
+					d[0], d[1] = 0xC3, 0xA9
+				} else {
+					d[r.Intn(len(d))] = byte(0x80 + r.Intn(128))
+				}
+			}
+			bs = append(bs, d)
 		}
 		return ".|" + showByteLists(bs)
 	}
